@@ -125,6 +125,16 @@ def gen(tier, seed):
     for c_ in closers:
         for tail in ([], [("-o", "-")], [("-U",), ("-o", "-")], [("-Q",), ("-o", "-")], [("-E",)]):
             add(c_ + tail, "options asked to close a reference cycle")
+    # -c is a DEEP copy: an in-place edit reached through the copy (-g into it, then -e -t -d -s -a -i -x) must not show in
+    # the original, and the other way round; the whole stack is printed afterwards
+    nested = [('{"a":[1,2],"b":{"c":[3]}}', ["a", "b"]), ('[[1,2],{"k":[3]}]', ["0", "1"])]
+    edits = [[("-e",)], [("-t", "1")], [("-d", "0")], [("-d", "c")], [("-d", "k")], [("-j", "9"), ("-s", "0")], [("-j", "9"), ("-s", "z")],
+             [("-j", "9"), ("-a",)], [("-j", "9"), ("-i", "0")], [("-j", "[9]"), ("-x",)], [("-j", '{"n":9}'), ("-x",)]]
+    for v, ks in nested:
+        for k_ in ks:
+            for ed in edits:
+                add([("-j", v), ("-c",), ("-g", k_)] + ed + OBSERVER, "copy independence")
+                add([("-j", v), ("-c",), ("-M", "1"), ("-g", k_)] + ed + OBSERVER, "copy independence")
     for u in USAGE:
         add(u, "usage errors")
     # the manual's own examples (with constants for $jwe etc.)
